@@ -72,6 +72,40 @@ def udpcl_polling_cases(chk, sigtable):
     return bad
 
 
+def session_parameter_cases(chk, sigtable):
+    ''' get_session_parameters() returns a{sv}: every value must be marshallable as a variant, whatever the
+    peer's address family, node ID and announced values are. '''
+    import tcpcl_sim as ts
+    rng = chk.rng
+    out = []
+    ent = sigtable.get('tcpcl.ContactHandler.get_session_parameters')
+    peers = [('192.0.2.1', 4556), ('2001:db8::1', 4556, 0, 0), ('::1', 4556, 0, 0), ('fe80::1%eth0', 4556, 0, 3), ('127.0.0.1', 1)]
+    for peername in peers:
+        for (node_b, ka_b) in (('dtn://b/', 0), ('', 30), ('ipn:5.0', 65535)):
+            sim = ts.Sim({'keepalive': rng.choice([0, 7])}, {'node_id': node_b, 'keepalive': ka_b, 'seg_mru': rng.choice([1, 2 ** 64 - 1])})
+            sim.a.sock.peername = peername
+            sim.b.sock.peername = peername
+            sim.establish(rng)
+            chk.case({'session_parameters': True, 'peer': peername[0], 'node': node_b, 'keepalive': ka_b})
+            chk.count('session-parameters')
+            for ep in sim.eps():
+                if ep.closed() or ep.h._state != 'established':
+                    continue
+                try:
+                    val = ts.canon_val(dict(ep.h.get_session_parameters()))
+                except Exception as err:
+                    out.append(('C18:get_session_parameters-raises-%s' % type(err).__name__, 'get_session_parameters() raised %r with peer %s' % (err, peername[0]),
+                                {'peer': list(peername), 'node': node_b}))
+                    continue
+                if ent and not tm.conforms(val, ent[2]):
+                    badkeys = [k for k, v in val.get('dict', {}).items() if not tm.conforms(v, 'v')]
+                    out.append(('C18:return-type-get_session_parameters',
+                                'get_session_parameters() of %s with peer address %s returns values which cannot be marshalled as "%s": %s'
+                                % (ep.name, peername[0], ent[2], {k: val['dict'][k] for k in badkeys}),
+                                {'peer': list(peername), 'node': node_b, 'value': val}))
+    return out
+
+
 def run(chk):
     chk.prove(MODULE)
     rng, tier = chk.rng, chk.tier
@@ -120,6 +154,8 @@ def run(chk):
                 chk.violation(sig, what, {'passive': passive, 'state': st, 'msg': nm, 'x_cfg': adv.x.model_cfg(), 'x_events': adv.x.events})
             advs.append((adv, '%s %s %s' % ('passive' if passive else 'active', st, nm)))
     c17.compare(chk, advs)
+    for (sig, what, rep) in session_parameter_cases(chk, sigtable):
+        chk.violation(sig, what, rep)
     for (sig, what, rep) in udpcl_polling_cases(chk, sigtable):
         chk.violation(sig, what, rep)
     from props import c13
